@@ -15,7 +15,7 @@ extra = f"""
 Additional guidance for this round:
 - Source files most involved in this property: {', '.join(p['anchors']['files'])} (you may change other files of src/ too).
 - Run the test suite with `TMPDIR=$(mktemp -d) cargo nextest run --workspace --no-fail-fast --offline -j 1` (two integration tests share temp file names and fail spuriously when run in parallel). Remove your demo files from tests/ before running the suite.
-- Earlier rounds already produced the changes summarised below. Do NOT redo these or close variants of them: pick OTHER functions, other code paths (reader vs creator, tools, rarely used public API such as free data, explicit pack ids, value store kinds, packagings, file vs memory sources, the `Word`/`Vow`/`Bound` deferred values, locators, caches), other boundaries, other interleavings. Prefer changes whose effect is silent (wrong data, wrong verdict, lost update) over ones that panic immediately, and changes that need an unusual but legal use of the public API.
+- Earlier rounds already produced the changes summarised below. Do NOT redo these or close variants of them: pick OTHER functions, other code paths (reader vs creator, tools, rarely used public API such as free data, explicit pack ids, value store kinds, packagings, file vs memory sources, the `Word`/`Vow`/`Bound` deferred values, locators, caches), other boundaries, other interleavings. Prefer changes whose effect is silent (wrong data, wrong verdict, lost update) over ones that panic immediately, and changes that need an unusual but legal use of the public API. Also consider regressions that show only in optimised builds or only in debug builds, only with unusual compression levels or algorithms, only beyond a large count (more than 255, 4095, 65535 entries / contents / values / packs), only for blocks of 4 KiB and more (memory-mapped reads), or only when two API calls are made in an unusual order.
 {chr(10).join(prev)}
 """
 print(base.rstrip() + extra)
